@@ -140,9 +140,9 @@ PROPS = {
             {"name": "minimiser", "mode": "tap", "quick": 400, "thorough": 8000, "args": []},
             {"name": "nlsearch", "mode": "nlsearch", "quick": 1500, "thorough": 40000, "args": []},
         ],
-        "lean_modules": ["Pumpkin.Model.SemMin", "Pumpkin.Model.RecMin", "Pumpkin.Model.PropagationCompile", "Pumpkin.Model.Search"],
+        "lean_modules": ["Pumpkin.Model.SemMin", "Pumpkin.Model.RecMin", "Pumpkin.Model.PropagationCompile", "Pumpkin.Model.Search", "Pumpkin.Model.Narrow"],
         "relevant": c02_relevant,
-        "level_text": "nolearning_search_unsat_sound / nolearning_search_sat_sound: Model/Search.lean models the search loop itself in its simplest configuration (ConflictResolver::NoLearning, no restarts: decide, propagate to the fixpoint, on conflict undo the last decision and post its negation, repeatedly; solution when the brancher has no decision left; unsat on a conflict at the root) over the propagator models, with the decision strategy as a parameter; for EVERY strategy, fuel and start state the answer unsat is only given if no assignment in the start domains satisfies all propagators' constraints (DFS covering invariant over the open alternatives) and sat a only for an a satisfying all of them. Tied exactly: the decisions of real NoLearning solves (all brancher families) are replayed through the model, which must be in the same domains at every decision point, also after every backtrack, and give the same answer (`nlsearch` records, 1500 solves per quick run). root_conflict_unsat / search_conflict_sound: an infeasibility reported while posting (Pg.rootFix = conflict) is only reported for models without solutions and a conflict of the propagation fixpoint after a decision refutes the current domains, for every model of the modelled constraint kinds (propagator models of Model/Propagation.lean, tied to the real solver by the exact `fix` correspondence run under C17/C12). recursive_minimiser_preserves_meaning: Model/RecMin.lean mirrors recursive_minimiser.rs (initial labels, allowed decision levels, compute_label with its depth cut-off, decision / level / Poison rules, the sweep which keeps Poison and Keep) over opaque predicates and an arbitrary reason graph; proved for every nogood, every acyclic reason graph and every depth limit: whenever the kept predicates hold, all predicates of the original nogood hold (removeDominated_sound), and nothing is invented (recursive_minimiser_subset). Tied exactly: the hook records every run of the real minimiser (initial labels, each compute_label call with its outcome and the non-root antecedents of each requested reason, result) and the model, fed with that reason graph, must keep the same predicates in the same order and make the same sequence of calls with the same outcomes; the observed reason graph must be acyclic; through the hook the depth limit is lowered to 1-6 on a third of the cases so that the cut-off branch runs on small models. semantic_minimiser_preserves_meaning: Model/SemMin.lean mirrors semantic_minimiser.rs (apply_predicates, hole propagation loops, redundant-hole removal, consistency, description relative to the original domain, equality merging) and is proved meaning-preserving for every nogood, every original domain and every assignment; tied exactly: the hook records input and output of every call of the real minimiser during search and the model must return the same set of predicates (or 'trivially false'). Proof: the oracle is exact (mem_solutions, solutions_eq_nil_iff), so an accepted Unsatisfiable verdict or posting error means the (prefix) model has no satisfying assignment, and a prefix-unsat model is unsat. Tie to code: every verdict of satisfy and every Err from post/add_clause on generated models is judged against the oracle; non-termination is observed as a poll cap / wall-clock cap.",
+        "level_text": "modelled_solver_unsat_sound / modelled_solver_sat_sound (end to end): Pg.solveNL — post the Spec model at the root (decomposition into propagators, fixpoint after every posting), then the search loop — answers unsat only for models without solutions and sat a only for a solution of the model, for every model of the modelled constraint kinds, every decision strategy and fuel (Model/Narrow.lean: propagation only narrows; compile_fwd / compile_bwd; rootFix_sound; search invariants); pdrive runs exactly this function on the replayed decisions. nolearning_search_unsat_sound / nolearning_search_sat_sound: Model/Search.lean models the search loop itself in its simplest configuration (ConflictResolver::NoLearning, no restarts: decide, propagate to the fixpoint, on conflict undo the last decision and post its negation, repeatedly; solution when the brancher has no decision left; unsat on a conflict at the root) over the propagator models, with the decision strategy as a parameter; for EVERY strategy, fuel and start state the answer unsat is only given if no assignment in the start domains satisfies all propagators' constraints (DFS covering invariant over the open alternatives) and sat a only for an a satisfying all of them. Tied exactly: the decisions of real NoLearning solves (all brancher families) are replayed through the model, which must be in the same domains at every decision point, also after every backtrack, and give the same answer (`nlsearch` records, 1500 solves per quick run). root_conflict_unsat / search_conflict_sound: an infeasibility reported while posting (Pg.rootFix = conflict) is only reported for models without solutions and a conflict of the propagation fixpoint after a decision refutes the current domains, for every model of the modelled constraint kinds (propagator models of Model/Propagation.lean, tied to the real solver by the exact `fix` correspondence run under C17/C12). recursive_minimiser_preserves_meaning: Model/RecMin.lean mirrors recursive_minimiser.rs (initial labels, allowed decision levels, compute_label with its depth cut-off, decision / level / Poison rules, the sweep which keeps Poison and Keep) over opaque predicates and an arbitrary reason graph; proved for every nogood, every acyclic reason graph and every depth limit: whenever the kept predicates hold, all predicates of the original nogood hold (removeDominated_sound), and nothing is invented (recursive_minimiser_subset). Tied exactly: the hook records every run of the real minimiser (initial labels, each compute_label call with its outcome and the non-root antecedents of each requested reason, result) and the model, fed with that reason graph, must keep the same predicates in the same order and make the same sequence of calls with the same outcomes; the observed reason graph must be acyclic; through the hook the depth limit is lowered to 1-6 on a third of the cases so that the cut-off branch runs on small models. semantic_minimiser_preserves_meaning: Model/SemMin.lean mirrors semantic_minimiser.rs (apply_predicates, hole propagation loops, redundant-hole removal, consistency, description relative to the original domain, equality merging) and is proved meaning-preserving for every nogood, every original domain and every assignment; tied exactly: the hook records input and output of every call of the real minimiser during search and the model must return the same set of predicates (or 'trivially false'). Proof: the oracle is exact (mem_solutions, solutions_eq_nil_iff), so an accepted Unsatisfiable verdict or posting error means the (prefix) model has no satisfying assignment, and a prefix-unsat model is unsat. Tie to code: every verdict of satisfy and every Err from post/add_clause on generated models is judged against the oracle; non-termination is observed as a poll cap / wall-clock cap.",
         "level_note": LEVEL_NOTE_COMMON + "Completeness (termination) of real CDCL with restarts/deletion is not a theorem; observed only.",
         "assumptions": ["termination is observed as: no solve exceeds 2,000,000 polls of the termination condition and no case exceeds the stream timeout"],
     },
